@@ -26,13 +26,10 @@ record trivially has a uniform line width), so the clauses are read for them as 
     record as a header without sequence lines.
   * a name that occurs twice is a duplicate record name whether or not one or both copies are empty: the
     file must be rejected.
-  * NOT judged (the unchanged tree misbehaves, see the report of the fourth gap-closing round): fetching the
-    residues of an empty record (get_fasta_seq / sequence_bytes raise ZeroDivisionError because the entry has
-    0 residues per line), and the presence of empty records in the assembly *reloaded from the .agp cache*
-    (AGP has no way of writing an object without rows, so the reloaded assembly has no scaffold for them and
-    streaming it back omits them).  In the cached assembly a scaffold for an empty record may therefore be
-    absent; if present it must have no rows.  Everything else about files containing empty records (all
-    other records, the .fai, get_info) is judged as usual.
+  * fetching the whole of an empty record (get_fasta_seq) returns a sequence of no residues, and the assembly
+    *reloaded from the .agp cache* has the same scaffolds as the one just built, rowless ones included, in
+    file order (AGP has no line for an object without rows; both were defects of the pinned tree - a
+    ZeroDivisionError and a record silently missing after a warm load - repaired in /repo).
 """
 
 import io
@@ -92,7 +89,7 @@ def rows_of(scaffold):
 def check_index(case, layout, idx, asm, what, reloaded=False):
     """
     index + derived assembly against the model; returns messages.  reloaded: the assembly was read back from
-    the .agp cache, in which a rowless scaffold (empty record) cannot be written: see the module docstring
+    the .agp cache (judged exactly like the one just built)
     """
     msgs = []
     got_names = list(idx)
@@ -116,12 +113,6 @@ def check_index(case, layout, idx, asm, what, reloaded=False):
             )
     sc_names = [s.name for s in asm.scaffolds]
     records, scaffolds = case.records, asm.scaffolds
-    if reloaded:
-        empty = {r.name for r in case.records if not r.seq}
-        scaffolds = [s for s in asm.scaffolds if not (s.name in empty and not s.rows)]
-        records = [r for r in case.records if r.seq]
-        sc_names = [s.name for s in scaffolds]
-        want_names = [r.name for r in records]
     if sc_names != want_names:
         msgs.append(f"{what}: assembly scaffolds {sc_names} != record names {want_names}")
         return msgs
@@ -139,8 +130,7 @@ def check_stream_back(case, fi, asm, line_length, what, reloaded=False):
         FastaStream(out, fi, line_length=line_length).write_assembly(asm)
     except Exception as e:  # noqa: BLE001
         return [f"{what}: streaming the derived assembly raised {e!r}"]
-    have = {s.name for s in asm.scaffolds}
-    want = [(r.name, G.masked(r.seq)) for r in case.records if r.seq or not reloaded or r.name in have]
+    want = [(r.name, G.masked(r.seq)) for r in case.records]
     return [f"{what}: streamed back, {m}" for m in G.compare_written_fasta(out.getvalue(), want, line_length)]
 
 
@@ -151,11 +141,11 @@ def check_random_access(case, fi, what):
             info = fi.get_info(r.name)
             if info.length != len(r.seq):
                 msgs.append(f"{what}: get_info({r.name}) has residue count {info.length}, record has {len(r.seq)}")
-            if not r.seq:
-                continue  # no interval to fetch (and fetching the whole empty record is not judged, see docstring)
             whole = fi.get_fasta_seq(r.name)
             if whole.sequence != r.seq or whole.name != r.name:
                 msgs.append(f"{what}: get_fasta_seq({r.name}) = {whole.sequence[:40]!r}, record is {r.seq[:40]!r}")
+            if not r.seq:
+                continue  # no interval to fetch
             n = len(r.seq)
             if n <= SMALL:
                 spans = [(s, e) for s in range(1, n + 1) for e in range(s, n + 1)]
@@ -172,7 +162,7 @@ def check_random_access(case, fi, what):
             if r.seq:
                 msgs.append(f"{what}: random access to {r.name} raised {e!r}")
             else:
-                msgs.append(f"{what}: looking up the index entry of {r.name}, a record without residues that the file contains, raised {e!r}")
+                msgs.append(f"{what}: looking up / fetching {r.name}, a record without residues that the file contains, raised {e!r}")
     return msgs
 
 
